@@ -54,12 +54,14 @@ Definition ok_C06 (c : case06) (o : obs06) : bool :=
    p_off = (address the atomic operation was performed on) - (container base + a_goff) when known;
    p_rt = 1 when the stored value was then seen at exactly that location through a raw pointer and
    returned by load *)
-Record case06a := { a_mode : mode; a_ep : N; a_size : N; a_goff : N; a_len : N }.
+(* a_skew: the container itself starts a_skew (< 8) bytes after an 8-aligned address - the alignment that counts is
+   that of the ADDRESS base + a_skew + a_goff, not of the offset *)
+Record case06a := { a_mode : mode; a_ep : N; a_size : N; a_goff : N; a_len : N; a_skew : N }.
 Record obs06a := { p_st : N; p_off : N; p_rt : N }.
 
 Definition ok_C06atomic (c : case06a) (o : obs06a) : bool :=
   if negb (is_word (a_size c)) then true else
-  if negb (a_goff c mod a_size c =? 0) then negb (p_st o =? 0) && negb (p_st o =? 3)
+  if negb ((a_skew c + a_goff c) mod a_size c =? 0) then negb (p_st o =? 0) && negb (p_st o =? 3)
   else if a_goff c + a_size c <=? a_len c then (p_st o =? 0) && (p_off o =? 0) && (p_rt o =? 1)
   else true.
 
